@@ -3,6 +3,7 @@ import Sqfs.Model.Path
 import Sqfs.Spec.HardLink
 import Sqfs.Model.TextParse
 import Sqfs.Model.C07Lines
+import Sqfs.Model.C07ReadHeader
 namespace Driver.C07
 open Sqfs.HardLink
 
@@ -127,6 +128,31 @@ def showPax (o : PaxOut) : String :=
   " link=" ++ showOptHex o.link ++ " sparse=[" ++ (showSparse o.sparse).trimAscii.toString ++ "] xattr=[" ++
   (String.join (o.xattr.map (fun x => " " ++ toHexTok x.key ++ "=" ++ toHexTok x.value))).trimAscii.toString ++ "]"
 
+def showTarHdr (t : TarHdr) (rest : Nat) : String :=
+  "ok name=" ++ toHexTok t.name ++ " link=" ++ showOptHex t.link ++ " mode=" ++ String.ofList (Nat.toDigits 8 t.mode) ++
+  " uid=" ++ toString t.uid ++ " gid=" ++ toString t.gid ++ " mtime=" ++ toString t.mtime ++ " size=" ++ toString t.recordSize ++
+  " actual=" ++ toString t.actualSize ++ " sparse=[" ++ (showSparse t.sparse).trimAscii.toString ++ "] xattr=[" ++
+  (String.join (t.xattr.map (fun x => " " ++ toHexTok x.key ++ "=" ++ toHexTok x.value))).trimAscii.toString ++
+  "] unknown=" ++ (if t.unknown then "1" else "0") ++ " hard=" ++ (if t.hardLink then "1" else "0") ++
+  " rest=" ++ toString rest
+
+/-- every member: `readHeader`, then skip the record data and its padding like the tar iterator (not part of any theorem) -/
+def rhAll : Nat → List UInt8 → List String
+  | 0, _ => ["more"]
+  | fuel + 1, s =>
+    match (readHeader s).res with
+    | .eof => ["eof"]
+    | .fail c => ["fail " ++ toString c]
+    | .oob => ["oob"]
+    | .spin => ["spin"]
+    | .ok t rest =>
+      let skip := t.recordSize
+      if skip > rest.length then [showTarHdr t rest.length, "skipfail"]
+      else
+        let skip := if skip % 512 ≠ 0 then skip + (512 - skip % 512) else skip
+        if skip > rest.length then [showTarHdr t rest.length, "skipfail"]
+        else showTarHdr t rest.length :: rhAll fuel (rest.drop skip)
+
 def parserStep : List String → Option String
   | ["num", h, d] => do
     let buf ← fromHex h
@@ -189,6 +215,13 @@ def parserStep : List String → Option String
     pure (match readGnuOldSparse hdr s with
       | .ok ([], _) => "fail 0"               -- an empty map is `NULL` (no diagnostic), which `read_header` takes for failure
       | r => showR (fun (v : List SparseEnt × List UInt8) => " " ++ toString v.2.length ++ showSparse v.1) r)
+  | ["rh", h] => do
+    let s ← fromHex h
+    pure (String.intercalate " ; " (rhAll 64 s))
+  | ["rhalloc", h] => do
+    -- monitor: the sizes `read_header` passes to `record_to_memory`, in order
+    let s ← fromHex h
+    pure ("allocs" ++ String.join ((readHeader s).allocs.reverse.map (fun n => " " ++ toString n)))
   | _ => none
 
 end Parsers
